@@ -1,9 +1,10 @@
 (** C09 — raw strings, JSON literals and quoted identifiers denote exactly their
-    value (partial: the theorems cover raw strings without backslashes and
-    unquoted identifiers; strings with backslashes, backtick literals and quoted
-    identifiers are decided by correspondence against an independent round-trip
-    expectation).  Statements only. *)
-From JP Require Import Base F64 Value Lexer Proofs.LexProof.
+    value (partial: the theorems cover every spellable raw string, every JSON
+    spelling of a string as quoted identifier and as string literal, and unquoted
+    identifiers; backtick literals holding numbers, arrays and objects — the
+    JSON reader beyond strings — are decided by correspondence against an
+    independent round-trip expectation).  Statements only. *)
+From JP Require Import Base F64 Value JsonPrint Lexer Parser Proofs.LexProof Proofs.JsonStrProof.
 
 (** The raw-string spelling (only the quote escaped) of every backslash-free
     string — any code points, any length — lexes to the literal holding exactly
@@ -18,6 +19,59 @@ Theorem C09_unescape_inverts_spelling : forall s, no_backslash s -> unescape 39 
 Proof. exact unescape_raw. Qed.
 Print Assumptions C09_unescape_inverts_spelling.
 
+(** Raw strings in general: every string in which no odd run of backslashes runs
+    into a quote or the end of the string (a string without that property has no
+    raw-string spelling in the language at all) is the value of its spelling —
+    only backslash-quote is an escape, every other backslash is literal. *)
+Theorem C09_raw_string_round_trip : forall s, spellable s = true ->
+  tokenize (39 :: raw_spell s ++ [39]) =
+    Ok [(0, TLiteral (VStr s)); (0 + 1 + (0 + byte_len (raw_spell s) + 1), TEof)].
+Proof. exact raw_roundtrip. Qed.
+Print Assumptions C09_raw_string_round_trip.
+
+Theorem C09_raw_string_compiles_to_its_value : forall s, spellable s = true -> parse (39 :: raw_spell s ++ [39]) = Ok (ALiteral (VStr s)).
+Proof. exact raw_compile. Qed.
+Print Assumptions C09_raw_string_compiles_to_its_value.
+
+Theorem C09_backslash_free_strings_are_spellable : forall s, no_backslash s -> spellable s = true.
+Proof. exact no_backslash_spellable. Qed.
+Print Assumptions C09_backslash_free_strings_are_spellable.
+
+Theorem C09_unescape_inverts_spelling_always : forall s, unescape 39 (raw_spell s) = s.
+Proof. exact unescape_raw_all. Qed.
+Print Assumptions C09_unescape_inverts_spelling_always.
+
+(** Quoted identifiers: every JSON spelling [t] of a name [k] — plain characters,
+    the two-character escapes, \uXXXX, surrogate pairs joined — between double
+    quotes is the identifier [k], and compiles to the selection of the member named [k]. *)
+Theorem C09_quoted_identifier : forall t k, spells t k ->
+  tokenize (34 :: t ++ [34]) = Ok [(0, TQuotedIdentifier k); (0 + 1 + (0 + byte_len t + 1), TEof)].
+Proof. exact quoted_identifier. Qed.
+Print Assumptions C09_quoted_identifier.
+
+Theorem C09_quoted_identifier_selects_member : forall t k, spells t k -> parse (34 :: t ++ [34]) = Ok (AField k).
+Proof. exact quoted_compile. Qed.
+Print Assumptions C09_quoted_identifier_selects_member.
+
+(** ... in particular the spelling a JSON printer writes, for any name at all. *)
+Theorem C09_quoted_identifier_canonical : forall k, Forall (fun c => 0 <= c) k ->
+  tokenize (print_string k) = Ok [(0, TQuotedIdentifier k); (0 + 1 + (0 + byte_len (flat_map escape_char k) + 1), TEof)].
+Proof. exact quoted_identifier_canonical. Qed.
+Print Assumptions C09_quoted_identifier_canonical.
+
+Theorem C09_printed_strings_are_spellings : forall k, Forall (fun c => 0 <= c) k -> spells (flat_map escape_char k) k.
+Proof. exact print_string_spells. Qed.
+Print Assumptions C09_printed_strings_are_spellings.
+
+(** JSON string literals between backticks (backticks written backslash-backtick). *)
+Theorem C09_string_literal : forall t k, spells t k -> parse (96 :: bt_spell (34 :: t ++ [34]) ++ [96]) = Ok (ALiteral (VStr k)).
+Proof. exact string_literal_compile. Qed.
+Print Assumptions C09_string_literal.
+
+Theorem C09_backtick_unescape_inverts_spelling : forall s, unescape 96 (bt_spell s) = s.
+Proof. exact unescape_bt_all. Qed.
+Print Assumptions C09_backtick_unescape_inverts_spelling.
+
 (** An unquoted identifier lexes to exactly its name. *)
 Theorem C09_unquoted_identifier : forall c s, is_alpha_ c = true -> ident_chars s ->
   tokenize (c :: s) = Ok [(0, TIdentifier (c :: s)); (1 + zlen s, TEof)].
@@ -29,6 +83,15 @@ Theorem C09_unterminated_not_closed : forall w s buf n fuel, Forall (fun c => c 
   consume_inside fuel w s buf n = None.
 Proof. exact consume_inside_unterminated. Qed.
 Print Assumptions C09_unterminated_not_closed.
+
+Example C09_spellable_examples :
+  spellable [97; 92; 92; 39; 98] = true /\ spellable [92; 120] = true /\ spellable [92] = false /\ spellable [92; 39] = false /\
+  spells [92; 117; 100; 56; 51; 100; 92; 117; 100; 101; 48; 48; 92; 110; 97] [128512; 10; 97].
+Proof.
+  repeat split; try reflexivity.
+  apply (sp_pair 100 56 51 100 100 101 48 48 55357 56832); [reflexivity|lia|reflexivity|lia|].
+  apply (sp_esc 110 10); [reflexivity|]. apply sp_char; [lia|discriminate|discriminate|constructor].
+Qed.
 
 Example C09_example :
   tokenize [39; 105; 116; 92; 39; 115; 39] = Ok [(0, TLiteral (VStr [105; 116; 39; 115])); (7, TEof)] /\
